@@ -138,6 +138,8 @@ func run(tier, mergePath, skipTranscription string) int {
 	var gs []grammar
 	dd, dm := grammarD()
 	gs = append(gs, grammar{"D", dd, dm})
+	ed, em := grammarE()
+	gs = append(gs, grammar{"E", ed, em})
 	cd, cm := grammarC()
 	bd, bm := grammarB(sc)
 	gs = append(gs, grammar{"B", bd, bm})
@@ -211,7 +213,7 @@ func run(tier, mergePath, skipTranscription string) int {
 		"the update-event handler of manager.run (two statements) is transcribed in the in-package harness for the triple enumeration; if that case of manager.run no longer has the transcribed text the enumeration is skipped (version_transcription_skipped) and the version clause rests on the merged version_protocol result of checks/C20 c10version (real manager under the controlled scheduler)",
 		"the hostname reservation service is a stub that always answers 'free'",
 		"version verdicts are taken when all update events have been delivered (no claim about the window in which an event is still in flight)",
-		"unit classes: cpu, memory, storage quantities and cpu attributes; memory/storage attributes are outside the alphabet",
+		"unit classes: cpu, memory, storage quantities and the attribute lists of cpu, memory and storage compared as multisets; pairs whose two sides differ ONLY in the order inside attribute lists are not judged (the unchanged tree compares position by position and rejects them; counted in class_counts attribute_order_only/*)",
 	})
 }
 
@@ -296,6 +298,10 @@ func replay(path string) int {
 			return 2
 		}
 		want := oracleCross(in.Groups, in.Manifest)
+		if len(in.Groups) == 1 && len(in.Manifest) == 1 && in.Groups[0].Name == in.Manifest[0].Name && orderOnly(in.Groups[0], in.Manifest[0]) {
+			fmt.Println("the two sides differ only in the order inside attribute lists: not judged (see oracle.go)")
+			return 0
+		}
 		var l pairCounters
 		checkPair(in.Grammar, &d, &m, want, true, rep, &l)
 		if kind.Kind == "provider-pair" {
